@@ -1015,6 +1015,37 @@ var ruleCap = &core.Rule{ID: "R16.2", Min: 8,
 				for v := range capLoads {
 					ev.Env[v] = constant.MakeInt64(cv)
 				}
+				// the comparison sits in a predicate method: its answer for (depth, cap) is evaluated there and pinned at the call
+				if h := m.guardHelper; h != nil {
+					hv := newEval(c)
+					if hp := intParamIndex(h); hp >= 0 {
+						hv.Env[h.Params[hp]] = constant.MakeInt64(lvl)
+					}
+					for _, hb := range h.Blocks {
+						for _, in := range hb.Instrs {
+							if ld, ok := in.(*ssa.UnOp); ok {
+								if _, fld, isLoad := core.LoadOfField(ld); isLoad && fld == m.capF {
+									hv.Env[ld] = constant.MakeInt64(cv)
+								}
+							}
+						}
+					}
+					hx, herr := hv.Walk(h.Blocks[0], nil, nil, 0)
+					if herr != nil || len(hx) != 1 || hx[0].Ret == nil {
+						bad = fmt.Sprintf("guard predicate %s not evaluable for depth %d: %v", h.Name(), lvl, herr)
+						break
+					}
+					ans, okA := hx[0].ValAt(hv, hx[0].Ret.Results[0])
+					if !okA || ans.Kind() != constant.Bool {
+						bad = fmt.Sprintf("guard predicate %s not evaluable for depth %d", h.Name(), lvl)
+						break
+					}
+					for _, ci := range core.Calls(g) {
+						if call, ok := ci.(*ssa.Call); ok && call.Call.StaticCallee() == h {
+							ev.Env[call] = ans
+						}
+					}
+				}
 				exits, err := ev.Walk(g.Blocks[0], nil, func(b *ssa.BasicBlock) bool { return famCallBlocks[b] || hasFamilyCallOrIndex(b, m) }, 0)
 				if err != nil || len(exits) != 1 {
 					bad = fmt.Sprintf("guard not evaluable for depth %d: %v", lvl, err)
